@@ -107,11 +107,14 @@ func overlayFor(v Variant, repo string) (map[string][]byte, bool, string) {
 	}
 	defer os.RemoveAll(tmp)
 	for _, f := range files {
+		os.MkdirAll(filepath.Dir(filepath.Join(tmp, f)), 0o755)
 		src, err := os.ReadFile(filepath.Join(repo, f))
 		if err != nil {
+			if os.IsNotExist(err) {
+				continue // a file the patch creates
+			}
 			return nil, false, err.Error()
 		}
-		os.MkdirAll(filepath.Dir(filepath.Join(tmp, f)), 0o755)
 		os.WriteFile(filepath.Join(tmp, f), src, 0o644)
 	}
 	cmd := exec.Command("patch", "-p1", "-s", "--no-backup-if-mismatch", "-i", v.Patch)
